@@ -71,7 +71,8 @@ func GetRandomPrimeInt(rand io.Reader, bits int) *big.Int {
 // Generate a random element in the group of all the elements in Z/nZ that
 // has a multiplicative inverse.
 func GetRandomPositiveRelativelyPrimeInt(rand io.Reader, n *big.Int) *big.Int {
-	if n == nil || zero.Cmp(n) != -1 {
+	// n <= 1: there is no element in [1, n); for n = 1 the loop below would never end
+	if n == nil || one.Cmp(n) != -1 {
 		return nil
 	}
 	var try *big.Int
@@ -99,12 +100,21 @@ func IsNumberInMultiplicativeGroup(n, v *big.Int) bool {
 // https://github.com/didiercrunch/paillier/blob/d03e8850a8e4c53d04e8016a2ce8762af3278b71/utils.go#L39
 func GetRandomGeneratorOfTheQuadraticResidue(rand io.Reader, n *big.Int) *big.Int {
 	f := GetRandomPositiveRelativelyPrimeInt(rand, n)
+	if f == nil {
+		return nil
+	}
 	fSq := new(big.Int).Mul(f, f)
 	return fSq.Mod(fSq, n)
 }
 
 // GetRandomQuadraticNonResidue returns a quadratic non residue of odd n.
 func GetRandomQuadraticNonResidue(rand io.Reader, n *big.Int) *big.Int {
+	// The Jacobi symbol is never -1 modulo a perfect square (1 included): the loop below would never end
+	if n != nil && n.Sign() > 0 {
+		if r := new(big.Int).Sqrt(n); r.Mul(r, r).Cmp(n) == 0 {
+			return nil
+		}
+	}
 	for {
 		w := GetRandomPositiveInt(rand, n)
 		if big.Jacobi(w, n) == -1 {
